@@ -166,13 +166,13 @@ def replay_atom(kind, model, qiso, aiso, ah, ring_mode, ring_u=RING_U):
     a._charge, a._is_radical = g('a_ch', 0), bool(g('a_rad', False))
     a._implicit_hydrogens = None if ah is None else g('a_h', 0)
     a._neighbors, a._heteroatoms, a._hybridization = g('a_nb', 0), g('a_het', 0), g('a_hyb', 1)
-    a._isotope = None if aiso is None else g('a_iso', 1)
+    a._isotope = None if aiso is None else a.mdl_isotope + (g('a_iso', 1) - g('a_mdl', 1))    # keep the model's offset
     a._ring_sizes = {k for k in ring_u if g(f'ar_{k}', False)}
     a._in_ring = bool(a._ring_sizes)
     sets = {p: tuple(k for k in u if g(f'q{p}_{k}', False)) for p, u in (('n', range(15)), ('y', range(1, 5)), ('x', range(15)), ('h', range(15)))}
     if kind == 'Q':
         q = object.__new__(QueryElement.from_atomic_number(g('q_Z', 6)))
-        q._isotope = None if qiso is None else g('q_iso', 0)
+        q._isotope = None if qiso is None else (0 if g('q_iso', 0) == 0 else q.mdl_isotope + (g('q_iso', 0) - g('q_mdl', 1)))
     elif kind == 'A':
         q = object.__new__(AnyElement)
     else:
